@@ -34,8 +34,12 @@ def main():
         "From TG.Gen Require Import GenTokens GenFoldKinds GenHandlers.",
         "From TG.Gen Require Import GenTokens GenFoldKinds.\nFrom TG.Tie Require Import GenHandlers.")
     assert "TG.Tie" in eq
+    eq2 = open(os.path.join(COQ, "proofs", "GenHandlersSymEq.v")).read().replace(
+        "From TG.Gen Require Import GenTokens GenHandlers.",
+        "From TG.Gen Require Import GenTokens.\nFrom TG.Tie Require Import GenHandlers.")
+    assert "TG.Tie" in eq2
     for arg in sys.argv[1:]:
-        patch = arg if arg.endswith(".diff") else os.path.join(VERIF, "seeded", arg, "patch.diff")
+        patch = os.path.abspath(arg) if arg.endswith(".diff") else os.path.join(VERIF, "seeded", arg, "patch.diff")
         name = os.path.basename(os.path.dirname(patch)) if not arg.endswith(".diff") else os.path.basename(arg)[:-5]
         wt = "/tmp/wt-tie-%s-%d" % (name, os.getpid())
         tdir = os.path.join(VERIF, ".cache", "outline", "tie", name)
@@ -60,7 +64,10 @@ def main():
             if rc != 0:
                 print("%-36s proof-breaks (the rendering does not type-check) %s" % (name, " ".join(out.split())[-160:]))
                 continue
+            open(os.path.join(tdir, "GenHandlersSymEq.v"), "w").write(eq2)
             rc, out = coqc(os.path.join(tdir, "GenHandlersEq.v"), tdir)
+            if rc == 0:
+                rc, out = coqc(os.path.join(tdir, "GenHandlersSymEq.v"), tdir)
             if rc != 0:
                 msg = " ".join(out.split())
                 k = msg.find("File ")
